@@ -67,10 +67,26 @@ class _LegacyRaiser(_SleepyDisconnect):
         return [('raise', 'legacy disconnect handler failure')]
 
 
+class _RelayApp(_SleepyDisconnect):
+    """A relay: every message received is sent back to the session it came from (a chat room of one)."""
+    def message(self, sid, data):
+        return [('send', sid, data)]
+
+    def disconnect(self, sid, reason):
+        return []
+
+
 def apply_action(w, st, a):
     """Returns False when the action is not enabled in this state."""
     sid = st.sids[0] if st.sids else None
-    if a in ('!farewell', '!hostile', '!legacy'):
+    if a in ('!farewell', '!hostile', '!legacy', '!relay'):
+        return True
+    if a == 'post_surrogate':
+        # a MESSAGE whose text is the JSON string "\ud83d" (seven ASCII characters on the wire): it decodes to a Python str
+        # holding a lone surrogate, which has no UTF-8 form
+        if sid is None:
+            return False
+        peer.post(w, sid, '4ok-before\x1e4"\\ud83d"')
         return True          # marker: the world was built with the farewell application
     if a.startswith('~'):
         # something that ends the session is under way and its disconnect handler is asleep when the probe arrives
@@ -155,6 +171,8 @@ def build(impl, hist):
     extra = {'behaviour': _SleepyDisconnect()} if any(a.startswith('~') for a in hist) else {}
     if hist[:1] == ('!farewell',) or (hist and hist[0] == '!farewell'):
         extra = {'behaviour': _FarewellApp()}
+    if hist and hist[0] == '!relay':
+        extra = {'behaviour': _RelayApp()}
     if hist and hist[0] == '!hostile':
         extra = {'behaviour': _HostileApp()}
     if hist and hist[0] == '!legacy':
@@ -305,7 +323,7 @@ def run_probe(impl, hist, probe, out):
                   site[-1] if site else 'unknown')
             elif r.exc:
                 V('exception_escaped', trig, '%s raised %s: %s at %s' % (r.method, r.exc['type'], r.exc['text'], r.exc['site']),
-                  (r.exc['site'] or ['unknown'])[-1])
+                  (r.exc['site'] or ['unknown'])[-1], exc=r.exc['type'])
             elif r.gateway_errors:
                 V('malformed_response', trig, '%s %s: %s' % (r.method, r.query[:40], '; '.join(r.gateway_errors)))
             elif r.status not in (200, 400, 401, 405):
@@ -404,6 +422,10 @@ def run(ctx):
             for base_h in (('open',), ('open', 'poll'), ('open', 'send', 'poll'), UPGRADED):
                 for i in range(len(PROBES)):
                     jobs.append((impl, (mark,) + base_h, i))
+        # relay pass: the application sends back what it receives, and a client posts text that decodes to a lone surrogate
+        for base_h in (('open', 'post_surrogate'), ('open', 'poll', 'post_surrogate'), UPGRADED + ('post_surrogate',)):
+            for i in range(len(PROBES)):
+                jobs.append((impl, ('!relay',) + base_h, i))
         # overlap pass: every probe arrives while the disconnect handler of an ending session is asleep
         for base_h in (('open',), ('open', 'poll'), UPGRADED):
             for f in OVERLAP_FIRSTS:
@@ -426,7 +448,7 @@ def run(ctx):
         'rule': 'breadth-first search over %r to depth %d (and depth/2 further from the state reached by a completed upgrade) with de-duplication on a canonical digest of sessions, queues, pending '
                 'requests/sockets, events and next timer; in each of the distinct states each of %d probes (%d HTTP requests incl. '
                 'malformed bodies, %d API calls) is issued on a fresh replay and the world run %.0fs of virtual time past it. '
-                'A farewell pass issues every probe on worlds whose disconnect handler yields and then sends to the ending session; a failing-application pass on worlds whose message handler raises and whose disconnect handler raises TypeError, or is a legacy one-argument handler that raises. An overlap pass issues every probe while the disconnect handler (0.25 s) of a session that is being ended by a bad / oversize / CLOSE POST or by disconnect(sid) is still asleep, from three base states. states = distinct digests over both servers; transitions = history steps explored + probe executions.'
+                'A farewell pass issues every probe on worlds whose disconnect handler yields and then sends to the ending session; a failing-application pass on worlds whose message handler raises and whose disconnect handler raises TypeError, or is a legacy one-argument handler that raises; a relay pass on worlds whose application sends back what it receives, after a client posted text that decodes to a lone surrogate. An overlap pass issues every probe while the disconnect handler (0.25 s) of a session that is being ended by a bad / oversize / CLOSE POST or by disconnect(sid) is still asleep, from three base states. states = distinct digests over both servers; transitions = history steps explored + probe executions.'
                 % (ACTIONS, depth, len(PROBES), len([p for p in PROBES if p[0] == 'http']), len([p for p in PROBES if p[0] == 'call']), HORIZON),
         'exhaustive': True, 'bound_completed': depth, 'max_depth_reached': maxd, 'states_per_impl': per_impl,
         'violating_cases_total': nv,
